@@ -377,6 +377,9 @@ func c28CheckResolution(r *findings.Run, scratch, tag string, slots []c28Ref, al
 		mask       int
 		constraint string
 		pluginDir  string
+		// first: constraint of another database of the SAME plugin type configured before mydb ("\x00" = none).
+		// Every configured database resolves on its own: the other database must not influence mydb.
+		first string
 	}
 	var jobs []job
 	nsub := 1 << len(alpha)
@@ -385,7 +388,14 @@ func c28CheckResolution(r *findings.Run, scratch, tag string, slots []c28Ref, al
 			pd := filepath.Join(scratch, fmt.Sprintf("res%s-%d-%d", tag, si, mask))
 			c28MakeTree(pd, []c28Plugin{{slot.Repo, slot.Name, c28Subset(alpha, mask)}}, true)
 			for _, c := range cons {
-				jobs = append(jobs, job{slot, mask, c, pd})
+				jobs = append(jobs, job{slot, mask, c, pd, "\x00"})
+				if mask == nsub-1 || mask == nsub/2+1 {
+					for _, c1 := range cons {
+						if c1 != c {
+							jobs = append(jobs, job{slot, mask, c, pd, c1})
+						}
+					}
+				}
 			}
 		}
 	}
@@ -396,7 +406,12 @@ func c28CheckResolution(r *findings.Run, scratch, tag string, slots []c28Ref, al
 		if err := os.MkdirAll(filepath.Join(home, ".octosql"), 0o755); err != nil {
 			panic(err)
 		}
-		if err := os.WriteFile(filepath.Join(home, ".octosql", "octosql.yml"), []byte(c28Yaml(j.slot.Repo, j.slot.Name, j.constraint)), 0o644); err != nil {
+		yaml := c28Yaml(j.slot.Repo, j.slot.Name, j.constraint)
+		if j.first != "\x00" {
+			other := strings.Replace(c28Yaml(j.slot.Repo, j.slot.Name, j.first), "name: mydb", "name: other", 1)
+			yaml = other + strings.TrimPrefix(yaml, "databases:\n")
+		}
+		if err := os.WriteFile(filepath.Join(home, ".octosql", "octosql.yml"), []byte(yaml), 0o644); err != nil {
 			panic(err)
 		}
 		marker := filepath.Join(home, "marker")
@@ -407,14 +422,22 @@ func c28CheckResolution(r *findings.Run, scratch, tag string, slots []c28Ref, al
 		executed := strings.Fields(strings.TrimSpace(string(mb)))
 		os.RemoveAll(home)
 		label := c28ConstraintLabel(j.constraint)
+		if j.first != "\x00" {
+			label += "(after-another-database-of-the-same-plugin)"
+		}
 		replay := map[string]interface{}{"part": "resolution", "plugin": c28Plugin{j.slot.Repo, j.slot.Name, versions}, "constraint": label,
-			"config": c28Yaml(j.slot.Repo, j.slot.Name, j.constraint), "query": "SELECT * FROM mydb.t", "exit": res.Exit, "stderr": c28Trunc(res.Err), "executed": executed}
+			"config": yaml, "query": "SELECT * FROM mydb.t", "exit": res.Exit, "stderr": c28Trunc(res.Err), "executed": executed}
 		if res.Hang || res.Crash != "" {
 			r.Outcome("resolution:" + res.Class())
 			r.Violation("C28/resolution/"+res.Class(), fmt.Sprintf("octosql %s with %s/%s versions %v constraint %s: %s", res.Class(), j.slot.Repo, j.slot.Name, versions, label, c28Trunc(res.Crash)), replay)
 			return
 		}
 		want, ok := c28Expected(versions, j.constraint, "star")
+		if j.first != "\x00" {
+			if _, firstOK := c28Expected(versions, j.first, "star"); !firstOK {
+				ok = false // the other configured database cannot be resolved: start-up must fail
+			}
+		}
 		dash := strings.Contains(j.slot.Name, "-")
 		var gotVer string
 		if len(executed) > 0 {
